@@ -8,6 +8,7 @@ import (
 	"bytes"
 	"fmt"
 	"io"
+	"net"
 	"os"
 	"runtime"
 	"sort"
@@ -167,6 +168,10 @@ type hist struct {
 	gw    *bed.Gateway
 	host  string
 	tok   string
+	// spell[e]: how stub e's URL is written in the cluster objects of this history: "" = as the stub reports it
+	// (http://127.0.0.1:port), "v6" = as an IPv6 literal (http://[::ffff:127.0.0.1]:port, the IPv4-mapped address of the
+	// same listener), "upper" = with an upper-case host name (http://LOCALHOST:port). Same server, same statement.
+	spell map[int]string
 	// gwTok is the gateway's own credential for this history's cluster, unique in the whole run and constant across the
 	// history's updates: /healthz probes are attributed by it (stub ports are ephemeral and can be re-bound by a stub of
 	// another history while a checker of a closed gateway is still probing the old address)
@@ -221,9 +226,9 @@ func (h *hist) object(m *model) *proxyv1alpha1.UpstreamCluster {
 	var servers []string
 	dis := map[string]bool{}
 	for _, s := range m.Servers {
-		servers = append(servers, h.stubs[s].URL)
+		servers = append(servers, h.url(s))
 		if m.Disabled[s] {
-			dis[h.stubs[s].URL] = true
+			dis[h.url(s)] = true
 		}
 	}
 	if m.Bad != "" {
@@ -233,7 +238,7 @@ func (h *hist) object(m *model) *proxyv1alpha1.UpstreamCluster {
 	for p := range m.Subsets {
 		var sub []string
 		for _, s := range m.Subsets[p] {
-			sub = append(sub, h.stubs[s].URL)
+			sub = append(sub, h.url(s))
 		}
 		ps = append(ps, proxyv1alpha1.DispatchPolicy{
 			Strategy:       proxyv1alpha1.RoundRobin,
@@ -248,7 +253,7 @@ func (h *hist) object(m *model) *proxyv1alpha1.UpstreamCluster {
 			plain := proxyv1alpha1.UpstreamClusterServer{Endpoint: sv.Endpoint}
 			where := ""
 			for e, w := range m.Dup {
-				if h.stubs[e].URL == sv.Endpoint && m.isServer(e) {
+				if h.url(e) == sv.Endpoint && m.isServer(e) {
 					where = w
 				}
 			}
@@ -287,12 +292,12 @@ func (h *hist) endpoint(e int) *clusters.EndpointInfo {
 	if !ok {
 		return nil
 	}
-	ep, _ := ci.Endpoints.Load(h.stubs[e].URL)
+	ep, _ := ci.Endpoints.Load(h.url(e))
 	return ep
 }
 
 func (h *hist) waitReady(e int, want bool) bool {
-	if !h.gw.WaitReady(h.host, h.stubs[e].URL, want, watchdog) {
+	if !h.gw.WaitReady(h.host, h.url(e), want, watchdog) {
 		h.fail(fmt.Sprintf("endpoint %d did not report ready=%v within the %v watchdog", e, want, watchdog))
 		return false
 	}
@@ -836,6 +841,18 @@ func (h *hist) genChange(g *vkit.Rand, allowHang bool, tickerWait bool) *change 
 	return &change{Kind: "resync", after: after, run: func() bool { return h.apply(after) }}
 }
 
+// url is the spelling of stub e's URL used in this history's objects.
+func (h *hist) url(e int) string {
+	u := h.stubs[e].URL
+	switch h.spell[e] {
+	case "v6":
+		return strings.Replace(u, "127.0.0.1", "[::ffff:127.0.0.1]", 1)
+	case "upper":
+		return strings.Replace(u, "127.0.0.1", "LOCALHOST", 1)
+	}
+	return u
+}
+
 // probes returns the instants of the /healthz probes stub e received from THIS history's gateway.
 func (h *hist) probes(e int) []int64 { return h.stubs[e].ProbesFrom(h.gwTok) }
 
@@ -856,7 +873,7 @@ func (h *hist) close() {
 }
 
 func newHist(r *vkit.R, id, k int) *hist {
-	h := &hist{r: r, id: id, k: k, host: fmt.Sprintf("c03-%d.test", id), open: map[int]*disInt{}, reenabled: map[int]bool{}, modes: make([]bed.HealthMode, k), modeLog: make([][]modeEv, k)}
+	h := &hist{r: r, id: id, k: k, host: fmt.Sprintf("c03-%d.test", id), open: map[int]*disInt{}, reenabled: map[int]bool{}, spell: map[int]string{}, modes: make([]bed.HealthMode, k), modeLog: make([][]modeEv, k)}
 	for i := 0; i < k; i++ {
 		h.stubs = append(h.stubs, bed.NewStub(fmt.Sprintf("h%d-s%d", id, i)))
 	}
@@ -871,6 +888,15 @@ func runHistory(r *vkit.R, id int, g *vkit.Rand, steps int, allowHang, tickerWai
 	h := newHist(r, id, k)
 	defer h.close()
 	h.np = g.Range(1, 3)
+	if spellingsWork && g.Chance(0.3) {
+		for e := 0; e < k; e++ {
+			h.spell[e] = []string{"", "v6", "upper"}[g.Intn(3)]
+			if h.spell[e] != "" {
+				r.Count("servers_spelled_"+h.spell[e], 1)
+			}
+		}
+		r.Count("histories_with_ipv6_literal_or_upper_case_server_spellings", 1)
+	}
 	m := &model{Disabled: map[int]bool{}, Belief: map[int]bool{}, Mode: map[int]string{}, Dup: map[int]string{}}
 	perm := g.Perm(k)
 	ns := g.Range(1, k)
@@ -940,10 +966,10 @@ func runHistory(r *vkit.R, id int, g *vkit.Rand, steps int, allowHang, tickerWai
 		dis := map[string]bool{}
 		for _, e := range g.Perm(k)[:g.Range(1, k)] {
 			h.twinServers[e] = true
-			servers = append(servers, h.stubs[e].URL)
+			servers = append(servers, h.url(e))
 			if g.Chance(0.35) {
 				h.twinDisabled[e] = true
-				dis[h.stubs[e].URL] = true
+				dis[h.url(e)] = true
 			}
 		}
 		sr := h.gw.Apply(bed.BuildCluster(bed.ClusterSpec{Name: h.twinHost, Servers: servers, Disabled: dis, Token: h.twinTok}))
@@ -953,7 +979,7 @@ func runHistory(r *vkit.R, id int, g *vkit.Rand, steps int, allowHang, tickerWai
 		}
 		h.twinFrom = bed.Now()
 		for e := range h.twinServers {
-			if !h.twinDisabled[e] && healthyMode(h.modes[e]) && !h.gw.WaitReady(h.twinHost, h.stubs[e].URL, true, watchdog) {
+			if !h.twinDisabled[e] && healthyMode(h.modes[e]) && !h.gw.WaitReady(h.twinHost, h.url(e), true, watchdog) {
 				h.fail("twin cluster endpoint did not become ready within the watchdog")
 				return
 			}
@@ -1442,6 +1468,35 @@ func disableRacingProbes(r *vkit.R, id int, g *vkit.Rand, iters int) {
 	h.judge([]string{fmt.Sprintf("%d goroutines call TriggerHealthCheck on stub0's endpoint continuously", nh), fmt.Sprintf("%d x (Apply enabled, Apply disabled, check)", iters)})
 }
 
+// spellingsWork: whether the sandbox can reach a 127.0.0.1 listener through "[::ffff:127.0.0.1]" and "LOCALHOST" at all
+// (decided once with plain net.Dial against a throw-away listener; if not, the spellings are not generated and the run
+// says so instead of blaming the gateway).
+var spellingsWork = func() bool {
+	l, err := net.Listen("tcp", "127.0.0.1:0")
+	if err != nil {
+		return false
+	}
+	defer l.Close()
+	go func() {
+		for {
+			c, err := l.Accept()
+			if err != nil {
+				return
+			}
+			c.Close()
+		}
+	}()
+	_, port, _ := net.SplitHostPort(l.Addr().String())
+	for _, host := range []string{"[::ffff:127.0.0.1]", "LOCALHOST"} {
+		c, err := net.DialTimeout("tcp", host+":"+port, 2*time.Second)
+		if err != nil {
+			return false
+		}
+		c.Close()
+	}
+	return true
+}()
+
 func TestCheck(t *testing.T) {
 	vkit.Run(t, "C03", "exploration", func(r *vkit.R) {
 		r.Rule("Seeded histories on a real gateway (controller VerifSync + GatewayHealthCheck + proxy handler chain) with 2..5 stub upstreams and 1..3 policies " +
@@ -1519,6 +1574,8 @@ func TestCheck(t *testing.T) {
 		r.Require(r.Counter("disabled_triggers") >= int64(tierN(r, 60, 900)), "too few TriggerHealthCheck calls on disabled endpoints")
 		r.Require(r.Counter("hung_probe_scenarios") >= int64(hung*8/10), "too few hung-probe scenarios completed")
 		r.Require(r.Counter("disable_steps_with_a_second_unflagged_entry_before")+r.Counter("created_disabled_with_a_second_unflagged_entry") >= int64(tierN(r, 3, 60)) && r.Counter("disable_steps_with_a_second_unflagged_entry_after") >= int64(tierN(r, 3, 60)), "too few disabled servers that are listed a second time without the flag")
+		r.Require(!spellingsWork || r.Counter("histories_with_ipv6_literal_or_upper_case_server_spellings") >= int64(tierN(r, 6, 100)), "too few histories with IPv6-literal / upper-case server spellings")
+		r.Set("ipv6_literal_and_upper_case_spellings_reachable_in_this_sandbox", spellingsWork)
 		r.Require(r.Counter("change_cluster-recreate") >= int64(tierN(r, 10, 200)), "too few delete-and-recreate steps")
 		r.Require(r.Counter("histories_with_a_twin_cluster_sharing_upstreams") >= int64(tierN(r, 8, 120)) && r.Counter("requests_twin") >= int64(tierN(r, 300, 6000)), "too few histories with a twin cluster")
 		r.Require(r.Counter("requests_during_cluster_creation") >= int64(tierN(r, 150, 2500)), "too few requests sent while a cluster was being created")
